@@ -8,7 +8,7 @@ inductive Step (c : Cfg) : State → Act → State → Prop where
   | arrive {s} (x : Item) :
       Step c s (.arrive x) { s with q := s.q ++ [x], arrived := s.arrived ++ [(x, s.clock)] }
   | tick {s} (d : Nat) : 0 < d →
-      ((s.pc = .idle ∧ s.q = []) ∨ (s.pc = .coll ∧ s.q = [] ∧ s.clock + d ≤ s.t0 + c.wait)
+      (c.strict = false ∨ (s.pc = .idle ∧ s.q = []) ∨ (s.pc = .coll ∧ s.q = [] ∧ s.clock + d ≤ s.t0 + c.wait)
         ∨ s.pc = .held ∨ s.pc = .done) →
       Step c s (.tick d) { s with clock := s.clock + d }
   | takeIdleEnd {s z rest} : s.q = z :: rest → s.pc = .idle → c.isEnd z = true →
